@@ -559,6 +559,11 @@ pub fn run_type<T: Cat + DecodeAll + DecodeLimit>(ctx: &mut Ctx, stream: &str, n
 						let mut io = parity_scale_codec::IoReader(std::io::Cursor::new(&bs[..]));
 						catch_unwind(AssertUnwindSafe(|| T::decode(&mut io).ok().map(|d| val_string(&d, true)))).ok().flatten().map(|d| (d, bs.len() - io.0.position() as usize))
 					}),
+					#[cfg(feature = "codec-std")]
+					("an IoReader whose reader is interrupted between deliveries", {
+						let mut io = parity_scale_codec::IoReader(InterruptedRd { data: &bs, pos: 0, calls: 0 });
+						catch_unwind(AssertUnwindSafe(|| T::decode(&mut io).ok().map(|d| val_string(&d, true)))).ok().flatten().map(|d| (d, bs.len() - io.0.pos))
+					}),
 					#[cfg(feature = "bytes-f")]
 					("decode_from_bytes", {
 						let shared = bytes::Bytes::copy_from_slice(&bs);
